@@ -99,19 +99,27 @@ def impl(case):
             if os.path.exists(cd):
                 shutil.rmtree(cd)
             def _q(x, k):
-                # the window ends are quantities: write them in micron, nm, mm or m (a unit is used only if the value survives the round trip
-                # exactly, so that an end placed ON a tabulated wavelength stays on it)
-                un = [u.micron, u.nm, u.mm, u.m, u.micron][k % 5]
-                q = (x * u.micron).to(un)
-                return q if float(q.to(u.micron).value) == float(x) else x * u.micron
+                # the window ends are quantities: written in micron, nm, mm, m or Angstrom (the same length, whether or not the number
+                # survives the conversion back to micron exactly)
+                un = [u.micron, u.nm, u.mm, u.m, u.AA, u.micron][k % 6]
+                return (x * u.micron).to(un)
             ri = len(res)
             kw = {} if win is None else dict(wav_min=_q(win[0], ri), wav_max=_q(win[1], ri // 2 + 1))
+            files_um = None
             try:
+                if win is not None and (kw['wav_min'].unit != u.micron or kw['wav_max'].unit != u.micron):
+                    # the same window written in micron: the set of files must not depend on the unit the window is written in
+                    convolve_model_dir_monochromatic(d, max_ram=_max_ram(chunk, nm, nap), wav_min=win[0] * u.micron, wav_max=win[1] * u.micron)
+                    files_um = sorted(f[:-5] for f in os.listdir(cd))
+                    shutil.rmtree(cd)
                 t = convolve_model_dir_monochromatic(d, max_ram=_max_ram(chunk, nm, nap), **kw)
             except Exception as e:
                 res.append(dict(exc='%s: %s' % (type(e).__name__, str(e)[:120])))
                 continue
             files = sorted(f[:-5] for f in os.listdir(cd))
+            if files_um is not None and files_um != files:
+                res.append(dict(unit_dep=dict(units=[str(kw['wav_min'].unit), str(kw['wav_max'].unit)], files=files, files_micron=files_um)))
+                continue
             content = {f: pkgcase.read_convolved(d, f) for f in files}
             res.append(dict(files=files, content=content, table=[(x.decode() if isinstance(x, bytes) else str(x)).strip() for x in t['filter']],
                             table_wav=[float(x) for x in t['wav'].to(u.micron).value]))
@@ -161,6 +169,10 @@ def judge(case, im, mo):
     for (chunk, win), r, m in zip(case['runs'], im['runs'], mo):
         lo, hi, emitted = m
         what = 'chunk %d window %r' % (chunk, win)
+        if 'unit_dep' in r:
+            ud = r['unit_dep']
+            fail.append('units: %s written in %s / %s gives the files %r, the same window in micron %r' % (what, ud['units'][0], ud['units'][1], ud['files'], ud['files_micron']))
+            continue
         if hi < lo:
             # the window holds a wavelength only at its upper end, which the code excludes: no file is required, but the call has to return
             if 'exc' in r:
